@@ -103,6 +103,12 @@ def gen_case(r, mode, k=None):
         if not case['objs'] and r.random() < 0.3:
             # no horizon: the horizon is a variable of the problem, asking for other solutions must not pin it
             case['prog'] = [('ONewProblem', None) if o[0] == 'ONewProblem' else o for o in case['prog']]
+    # options that only change what is printed / where the search starts (own generator: the main stream is unchanged)
+    r2 = random.Random(r.random())
+    if mode != 'optimize' and r2.random() < 0.3:
+        case['cfg'] = dict(case['cfg'], verbosity=r2.choice([1, 2]))
+    elif mode != 'optimize' and r2.random() < 0.15:
+        case['cfg'] = dict(case['cfg'], random_values=True)
     return case
 
 
@@ -634,6 +640,31 @@ def analyse(out, case, solver, tasks, varlist, outs, marks, sp, z3):
                     sem.append(('not-exhaustive', len(got), len(allp)))
                 if all(o[0] == 'ret' for o in outs) and len(outs) > len(allp) and len(allp) < 400:
                     sem.append(('more-than-exist', len(outs), len(allp)))
+            # the first request that fails ("no other solution") comes after every schedule has been returned
+            before = []
+            for op, o in zip(case['history'], outs):
+                if op[0] == 'find_another_var':
+                    break          # a request on one variable excludes more than the current schedule
+                if o[0] == 'ret' and o[1] in models:
+                    before.append(proj_of_model(models[o[1]], tasks, z3))
+                elif o[0] == 'none' and op[0] == 'find_another':
+                    if 'unknown' not in answers.values() and not any(x[0] == 'not-exhaustive' for x in sem):
+                        # is there a valid schedule that differs from every schedule returned so far?
+                        sx = base_check()
+                        for pm in set(before):
+                            diffs = []
+                            j = 0
+                            for t in tasks:
+                                diffs.append(t._start != pm[j])
+                                diffs.append(t._end != pm[j + 1])
+                                if isinstance(t._scheduled, z3.BoolRef):
+                                    diffs.append(t._scheduled != pm[j + 2])
+                                j += 3
+                            sx.add(z3.Or(diffs))
+                        if sx.check() == z3.sat:
+                            sem.append(('not-exhaustive', len(set(before)), 'another valid schedule exists: %s'
+                                        % (proj_of_model(sx.model(), tasks, z3),)))
+                    break
         if mode == 'history':
             # a solve()/find_another that says "no solution" while base + own blocking clauses is satisfiable
             perm = list(base)
